@@ -241,7 +241,7 @@ class Drawing:
         line = self.__drawing.line(
             start=(x, y + height_level),
             end=(x + w, y + height_level),
-            stroke=getattr(objstyle, "stroke", None),
+            stroke=style.Styling._to_css(getattr(objstyle, "stroke", None)),
         )
         if group is not None:
             group.add(line)
